@@ -22,6 +22,11 @@ pub struct Desc {
     /// a tablet keyspace `kt` exists and its map is delivered through custom payloads
     pub tablets: usize,
     pub keys_per_cell: usize,
+    /// every request is issued this many times (the driver picks among the replicas at random)
+    pub repeats: usize,
+    /// NAT emulation: plain-port connections land on shard 0, a shard-aware-port connection asking for shard i is
+    /// bound to shard (nr - i) % nr, so the shard a connection was asked for differs from the one the server reports
+    pub nat: bool,
 }
 
 impl Desc {
@@ -36,6 +41,8 @@ impl Desc {
             "per_shard": self.per_shard,
             "tablets": self.tablets,
             "keys_per_cell": self.keys_per_cell,
+            "repeats": self.repeats,
+            "nat": self.nat,
         })
     }
     pub fn from_json(v: &Value) -> Option<Desc> {
@@ -46,14 +53,19 @@ impl Desc {
             per_shard: v["per_shard"].as_bool()?,
             tablets: v["tablets"].as_u64()? as usize,
             keys_per_cell: v["keys_per_cell"].as_u64().unwrap_or(1) as usize,
+            repeats: v["repeats"].as_u64().unwrap_or(1) as usize,
+            nat: v["nat"].as_bool().unwrap_or(false),
         })
     }
     pub fn label(&self) -> String {
         let sh: Vec<String> = self.shards.iter().map(|s| s.map(|(n, m)| format!("{n}/{m}")).unwrap_or_else(|| "U".into())).collect();
-        format!("dcs={:?} shards=[{}] vn={} pool={} tablets={}", self.dc_sizes, sh.join(","), self.vnodes, if self.per_shard { "per-shard" } else { "per-host" }, self.tablets)
+        format!("dcs={:?} shards=[{}] vn={} pool={} tablets={}{}", self.dc_sizes, sh.join(","), self.vnodes, if self.per_shard { "per-shard" } else { "per-host" }, self.tablets, if self.nat { " nat" } else { "" })
     }
     fn seed(&self) -> u64 {
-        vcore::fnv64(self.to_json().to_string().as_bytes())
+        let mut j = self.to_json();
+        j.as_object_mut().unwrap().remove("repeats");
+        j.as_object_mut().unwrap().remove("keys_per_cell");
+        vcore::fnv64(j.to_string().as_bytes())
     }
 }
 
@@ -307,21 +319,35 @@ pub fn find_cell_keys(layout: &Layout, per_cell: usize, max_scan: u64) -> (Vec<C
 pub enum Policy {
     Default,
     PreferDc { dc: String, failover: bool },
+    /// DC + rack preference; the property speaks about the datacenter only, so the expectation is PreferDc's
+    PreferRack { dc: String, rack: String, failover: bool },
+    /// the datacenter is preferred in the SESSION configuration (`SessionBuilder::prefer_datacenter`), the policy is a
+    /// DefaultPolicy without a preference of its own
+    SessionPrefer { dc: String, failover: bool },
 }
 impl Policy {
     pub fn label(&self) -> String {
         match self {
             Policy::Default => "default".into(),
             Policy::PreferDc { dc, failover } => format!("prefer-{dc}-{}", if *failover { "failover" } else { "nofailover" }),
+            Policy::PreferRack { dc, rack, failover } => format!("prefer-{dc}/{rack}-{}", if *failover { "failover" } else { "nofailover" }),
+            Policy::SessionPrefer { dc, failover } => format!("session-prefer-{dc}-{}", if *failover { "failover" } else { "nofailover" }),
         }
     }
     pub fn parse(s: &str) -> Option<Policy> {
         if s == "default" {
             return Some(Policy::Default);
         }
+        if let Some(rest) = s.strip_prefix("session-prefer-") {
+            let (dc, f) = rest.rsplit_once('-')?;
+            return Some(Policy::SessionPrefer { dc: dc.into(), failover: f == "failover" });
+        }
         let rest = s.strip_prefix("prefer-")?;
         let (dc, f) = rest.rsplit_once('-')?;
-        Some(Policy::PreferDc { dc: dc.into(), failover: f == "failover" })
+        match dc.split_once('/') {
+            Some((d, r)) => Some(Policy::PreferRack { dc: d.into(), rack: r.into(), failover: f == "failover" }),
+            None => Some(Policy::PreferDc { dc: dc.into(), failover: f == "failover" }),
+        }
     }
 }
 
@@ -331,7 +357,13 @@ pub fn policies(layout: &Layout) -> Vec<Policy> {
         v.push(Policy::PreferDc { dc: dc.clone(), failover: true });
         v.push(Policy::PreferDc { dc: dc.clone(), failover: false });
     }
+    v.push(Policy::PreferRack { dc: "dc1".into(), rack: "r2".into(), failover: true });
+    v.push(Policy::PreferRack { dc: "dc1".into(), rack: "r2".into(), failover: false });
     v
+}
+
+pub fn session_policies(dc: &str) -> Vec<Policy> {
+    vec![Policy::SessionPrefer { dc: dc.into(), failover: true }, Policy::SessionPrefer { dc: dc.into(), failover: false }]
 }
 
 /// What the property allows as target of the first attempt.
@@ -351,7 +383,7 @@ fn narrow<T: Clone>(all: Vec<T>, node_of: impl Fn(&T) -> usize, layout: &Layout,
     }
     match policy {
         Policy::Default => (all, false, None),
-        Policy::PreferDc { dc, failover } => {
+        Policy::PreferDc { dc, failover } | Policy::PreferRack { dc, failover, .. } | Policy::SessionPrefer { dc, failover } => {
             let local: Vec<T> = all.iter().filter(|x| layout.node_dc(node_of(x)) == dc).cloned().collect();
             if !local.is_empty() {
                 let narrowed = local.len() < all.len();
@@ -413,6 +445,7 @@ pub fn enumerate(thorough: bool) -> Vec<Desc> {
         patterns.push(vec![u, s(8, 12), s(8, 3)]);
     }
     let mut out = Vec::new();
+    let (keys_per_cell, repeats) = if thorough { (2, 2) } else { (1, 2) };
     for dcs in &dc_layouts {
         let n: usize = dcs.iter().sum();
         for pat in &patterns {
@@ -422,10 +455,19 @@ pub fn enumerate(thorough: bool) -> Vec<Desc> {
                     if tablets > 0 && shards.iter().any(|x| x.is_none()) {
                         continue; // tablets exist on ScyllaDB nodes only
                     }
-                    for vnodes in if thorough { vec![2usize, 3] } else { vec![2usize] } {
-                        out.push(Desc { dc_sizes: dcs.clone(), shards: shards.clone(), vnodes, per_shard, tablets, keys_per_cell: if thorough { 2 } else { 1 } });
+                    for vnodes in if thorough { vec![1usize, 2, 3, 4] } else { vec![1usize, 2, 3] } {
+                        out.push(Desc { dc_sizes: dcs.clone(), shards: shards.clone(), vnodes, per_shard, tablets, keys_per_cell, repeats, nat: false });
                     }
                 }
+            }
+        }
+    }
+    // NAT emulation: per-shard pools towards nodes with >= 3 shards (with 2 shards the map cannot move a shard)
+    for dcs in [vec![1usize], vec![2], vec![2, 1]] {
+        let n: usize = dcs.iter().sum();
+        for nr in if thorough { vec![3u16, 8] } else { vec![3u16] } {
+            for tablets in [0usize, 3] {
+                out.push(Desc { dc_sizes: dcs.clone(), shards: vec![Some((nr, 12)); n], vnodes: 2, per_shard: true, tablets, keys_per_cell, repeats, nat: true });
             }
         }
     }
